@@ -168,7 +168,16 @@ func cmdScenario() int {
 	switch u.Kind {
 	case "bfs":
 		s := *u.Scenario
+		// The search does not expand beyond a transition that violates the property being checked
+		// (its consequences would only be noise). A violation of another property's monitor is
+		// recorded as a cross-property observation and the search goes on behind it: what this
+		// property demands must hold there too (C20 owns every safety monitor, so it stops at all).
+		decides := func(v mc.Violation) bool { return true }
+		if u.Property != "C20" && os.Getenv("VERIF_STOP_ALL") == "" {
+			decides = func(v mc.Violation) bool { return v.Property == u.Property }
+		}
 		res = mc.Explore(s.ID, worlds.Factory(s), mc.Options{
+			Decides:   decides,
 			MaxStates: s.MaxStates, MaxDepth: s.MaxDepth, Deadline: deadline,
 			Livelock: true, KeepSamples: 3, LivelockProperty: "C20", ValidateEvery: validateEvery(), PanicProperty: u.Property,
 		})
